@@ -183,6 +183,10 @@ def c12(tier, seed):
         out.append({'line': "./pargs '%s' \"%s\"" % (txt, txt), 'files': {'pargs': PARGS}, 'expect_stdout': _argv([txt, txt]), 'area': 'expand_brace:quoted'})
     for txt, exp in (('{a,b}}', ['a}', 'b}']), ('}{a,b}', ['}a', '}b']), ('x}{a,b}y', ['x}ay', 'x}by']), ('{a,b}{', ['a{', 'b{'])):
         out.append({'line': './pargs ' + txt, 'files': {'pargs': PARGS}, 'expect_stdout': _argv(exp), 'area': 'expand_brace:group-next-to-unbalanced-brace'})
+    # a group without a comma is text; the groups around it still expand
+    for txt, exp in (('a{b}c{d,e}', ['a{b}cd', 'a{b}ce']), ('{a,{b}}', ['a', '{b}']), ('{x}{y,z}{w}', ['{x}y{w}', '{x}z{w}']), ('{p,q}{r}', ['p{r}', 'q{r}']),
+                     ('{{a},b}', ['{a}', 'b'])):
+        out.append({'line': './pargs ' + txt, 'files': {'pargs': PARGS}, 'expect_stdout': _argv(exp), 'area': 'expand_brace:group-without-comma'})
     for neg in ('{a,b', 'a,b}', '{a}', '{}', 'a{b'):
         out.append({'line': './pargs ' + neg, 'files': {'pargs': PARGS}, 'expect_stdout': _argv([neg]), 'area': 'expand_brace:unbalanced'})
     vals = [0, 1, -1, 3, -3, 9, 10, 11]
@@ -209,6 +213,12 @@ def c12(tier, seed):
         {'line': './pargs L a* R', 'files': pop, 'expect_stdout': _argv(['L', 'a b', 'a1', 'a2', 'R']), 'area': 'expand_glob:order'},
         {'line': './pargs b* a*', 'files': pop, 'expect_stdout': _argv(['b1', 'a b', 'a1', 'a2']), 'area': 'expand_glob:order'},
         {'line': 'mkdir d; touch d/x d/y; ./pargs d/*', 'files': pop, 'expect_stdout': _argv(['d/x', 'd/y']), 'area': 'expand_glob:subdir'},
+        # hidden places: a `*` matches neither a hidden file nor anything below a hidden directory, unless the pattern spells the dot out
+        {'line': 'mkdir d .hid d/.hs; touch d/x d/.h .hid/x d/.hs/x; ./pargs */x', 'files': pop, 'expect_stdout': _argv(['d/x']), 'area': 'expand_glob:hidden-directory'},
+        {'line': 'mkdir d .hid d/.hs; touch d/x d/.h .hid/x d/.hs/x; ./pargs */*', 'files': pop, 'expect_stdout': _argv(['d/x']), 'area': 'expand_glob:hidden-directory'},
+        {'line': 'mkdir d .hid d/.hs; touch d/x d/.h .hid/x d/.hs/x; ./pargs */*/x', 'files': pop, 'expect_stdout': _argv(['*/*/x']), 'area': 'expand_glob:hidden-directory'},
+        {'line': 'mkdir d .hid; touch d/x .hid/x .hid/y; ./pargs .hid/* .h*/y', 'files': pop, 'expect_stdout': _argv(['.hid/x', '.hid/y', '.hid/y']), 'area': 'expand_glob:hidden-directory:spelled-out'},
+        {'line': 'mkdir d; touch d/.only; ./pargs L d/* R', 'files': pop, 'expect_stdout': _argv(['L', 'd/*', 'R']), 'area': 'expand_glob:only-hidden-matches'},
     ]
     return out
 
@@ -231,6 +241,14 @@ def c13(tier, seed):
             out.append({'line': './pargs "%s"' % f, 'files': {'pargs': PARGS}, 'expect_stdout': _argv([v]), 'expect_only_files': ['pargs'], 'area': 'data:substitution:double-quoted'})
             if v not in ('~', '{a,b}', '$(echo no)'):
                 out.append({'line': './pargs L %s' % f, 'files': {'pargs': PARGS}, 'expect_stdout': _argv(['L', v]), 'expect_only_files': ['pargs'], 'area': 'data:substitution:unquoted'})
+    # a NAME=value shaped word is an argument like any other unless the line starts with it (then it is an assignment and the value is data too)
+    for v in ('a>b', 'x|y', '<f', '2>&1', 'r &', '>>o'):
+        setv = "V='%s'; " % v
+        for form in ('$V', '${V}', "$(printf '%%s' '%s')" % v, "`printf '%%s' '%s'`" % v):
+            out.append({'line': setv + './pargs A=%s z' % form, 'files': {'pargs': PARGS}, 'expect_stdout': _argv(['A=' + v, 'z']), 'expect_only_files': ['pargs'], 'area': 'data:assignment-shaped-argument'})
+            out.append({'line': setv + 'export A=%s; ./pargs "$A"' % form, 'files': {'pargs': PARGS}, 'expect_stdout': _argv([v]), 'expect_only_files': ['pargs'], 'area': 'data:assignment-shaped-argument:export'})
+            out.append({'line': setv + 'A=%s; ./pargs "$A"' % form, 'files': {'pargs': PARGS}, 'expect_stdout': _argv([v]), 'expect_only_files': ['pargs'], 'area': 'data:assignment'})
+            out.append({'line': setv + 'B=1 A=%s ./pargs A=%s' % (form, form), 'files': {'pargs': PARGS}, 'expect_stdout': _argv(['A=' + v]), 'expect_only_files': ['pargs'], 'area': 'data:assignment:prefix'})
     names = ['a>b', 'x;y', 'p|q', 'r&', '#h', '2>&1']
     files = dict({'pargs': PARGS}, **{n: '' for n in names})
     out.append({'line': './pargs *', 'files': files, 'expect_stdout': _argv(sorted(names + ['pargs'])), 'expect_only_files': sorted(names + ['pargs']), 'area': 'data:glob'})
@@ -330,6 +348,10 @@ def c03(tier, seed):
         {'line': './st a 200', 'files': {'st': ST}, 'expect_stdout': 'a\n', 'expect_rc': 200, 'area': 'list:status'},
         {'line': './st 中 0 && ./st b 3 ; ./st é 7', 'files': {'st': ST}, 'expect_stdout': '中\nb\né\n', 'expect_rc': 7, 'area': 'list:multi-byte'},
         {'line': './st é 4 || ./st 中文 0 && ./st c 5', 'files': {'st': ST}, 'expect_stdout': 'é\n中文\nc\n', 'expect_rc': 5, 'area': 'list:multi-byte'},
+        {'line': './st a 3; ', 'files': {'st': ST}, 'expect_stdout': 'a\n', 'expect_rc': 3, 'area': 'list:blank-tail'},
+        {'line': './st a 3 ;  ;  ', 'files': {'st': ST}, 'expect_stdout': 'a\n', 'expect_rc': 3, 'area': 'list:blank-tail'},
+        {'line': './st a 0 && ./st b 5 ; \t', 'files': {'st': ST}, 'expect_stdout': 'a\nb\n', 'expect_rc': 5, 'area': 'list:blank-tail'},
+        {'line': './st a 3; echo $? ;  ', 'files': {'st': ST}, 'expect_stdout': 'a\n3\n', 'expect_rc': 0, 'area': 'list:blank-tail'},
         {'line': "./st 'x\\' 0 && ./st b 0 ; ./st c 6", 'files': {'st': ST}, 'expect_stdout': 'x\\\nb\nc\n', 'expect_rc': 6, 'area': 'list:backslash-in-single-quotes'},
     ]
     return out
